@@ -85,7 +85,8 @@ impl Cors {
 
         let (origin_scheme, origin_authority) = match uri_parts {
             Some((s, o)) => (s, o),
-            None => return origin == "localhost" || origin == "null",
+            // an origin without a scheme (e.g. `null`) is never the same origin
+            None => return false,
         };
         if Some(origin_scheme) != uri.scheme_str() {
             return false;
@@ -312,13 +313,12 @@ impl Extensions {
     pub fn with_disallow_cors(&mut self) -> &mut Self {
         self.add_prime(
             prime!(request, _, _, {
-                let missmatch = request
-                    .headers()
-                    .get("origin")
-                    .and_then(|origin| origin.to_str().ok())
-                    .map_or(false, |origin| {
+                let missmatch = request.headers().get("origin").map_or(false, |origin| {
+                    // an origin we can't read is not our origin
+                    origin.to_str().map_or(true, |origin| {
                         !Cors::is_part_of_origin(origin, request.uri())
-                    });
+                    })
+                });
                 if missmatch {
                     Some(Uri::from_static("/./cors_fail"))
                 } else {
